@@ -27,7 +27,7 @@ import (
 	"verif/internal/model"
 )
 
-const rule = "cases: (signing type, crypto type, seed) x every API path that yields a Destination (NewDestination from a constructed, from a parsed and from a reused KeysAndCert object that held a permitted identity before, NewDestinationFromBytes, ReadDestination, ReadLeaseSet, ReadDestinationFromLeaseSet, ReadLeaseSet2 and ReadMetaLeaseSet with and without an offline-key block and with the other flag bits, RouterIdentity.AsDestination, CreateBlindedDestination, DecryptInnerData on ciphertexts crafted by an independent encryptor, inner LeaseSet2 with and without offline keys) or a RouterIdentity (NewRouterIdentity, NewRouterIdentityWithCompressiblePadding, NewRouterIdentityFromKeysAndCert with a fresh and with a reused KeysAndCert object, NewRouterIdentityFromBytes, ReadRouterIdentity, ReadRouterInfo); types {0..20} x {0..10,255} exhaustively each run, boundary codes 65279..65535 and sampled codes by rapid; the pair (0,0) also as the NULL-certificate 387-byte identity; wire forms are built byte-wise (key material sized by the specification table, excess key bytes in the certificate). Oracle: policy table transcribed from the specification's usage columns - a Destination never declares signing 4,5,6,8 or crypto 5,6,7; a RouterIdentity additionally never signing 11; if a path returns without error the declared types are outside the table; every permitted and supported pair (signing {0,1,2,7} x crypto {0,4}, plus 11 for Destinations) succeeds on every path. Non-trivial: pair prohibited or permitted-and-supported; distinct by (pair, path)."
+const rule = "cases: (signing type, crypto type, seed) x every API path that yields a Destination (NewDestination from a constructed, from a parsed and from a reused KeysAndCert object that held a permitted identity before, NewDestinationFromBytes, ReadDestination, ReadLeaseSet, ReadDestinationFromLeaseSet, ReadLeaseSet2 and ReadMetaLeaseSet with and without an offline-key block (transient key types Ed25519, Ed25519ph, RSA-2048, DSA, RedDSA) and with the other flag bits, RouterIdentity.AsDestination, CreateBlindedDestination, DecryptInnerData on ciphertexts crafted by an independent encryptor, inner LeaseSet2 with and without offline keys) or a RouterIdentity (NewRouterIdentity, NewRouterIdentityWithCompressiblePadding, NewRouterIdentityFromKeysAndCert with a fresh and with a reused KeysAndCert object, NewRouterIdentityFromBytes, ReadRouterIdentity, ReadRouterInfo); types {0..20} x {0..10,255} exhaustively each run, boundary codes 65279..65535 and sampled codes by rapid; the pair (0,0) also as the NULL-certificate 387-byte identity; wire forms are built byte-wise (key material sized by the specification table, excess key bytes in the certificate). Oracle: policy table transcribed from the specification's usage columns - a Destination never declares signing 4,5,6,8 or crypto 5,6,7; a RouterIdentity additionally never signing 11; if a path returns without error the declared types are outside the table; every permitted and supported pair (signing {0,1,2,7} x crypto {0,4}, plus 11 for Destinations) succeeds on every path. Non-trivial: pair prohibited or permitted-and-supported; distinct by (pair, path)."
 
 func TestMain(m *testing.M) { ev.Main(m, "C09", rule) }
 
@@ -95,6 +95,13 @@ func sigPubLenOr(st, def int) int {
 // transient key; its signature has the length of the destination's signing type.
 // Returns the header and the length of the trailing signature.
 func ls2Header(id []byte, st int, seed uint64, offline bool, flags byte) ([]byte, int) {
+	return ls2HeaderT(id, st, seed, offline, flags, 7)
+}
+
+// ls2HeaderT: the transient key may be of any signing type - also of the types that
+// are reserved for offline use (Ed25519ph, RSA) and therefore prohibited for the
+// destination itself. The policy is about the destination's own certificate.
+func ls2HeaderT(id []byte, st int, seed uint64, offline bool, flags byte, ttype int) ([]byte, int) {
 	b := append(append([]byte{}, id...), model.U32(1700000000)...)
 	b = append(b, 0, 100)
 	if !offline {
@@ -102,15 +109,23 @@ func ls2Header(id []byte, st int, seed uint64, offline bool, flags byte) ([]byte
 	}
 	b = append(b, 0, flags|1)
 	b = append(b, model.U32(1800000000)...)
-	b = append(b, 0, 7)
-	b = append(b, model.NewSignKey(7, seed+11).Pub...)
+	b = append(b, byte(ttype>>8), byte(ttype))
+	if k := model.NewSignKey(ttype, seed+11); k != nil {
+		b = append(b, k.Pub...)
+	} else {
+		b = append(b, model.Fill(sigPubLenOr(ttype, 32), seed+11)...)
+	}
 	b = append(b, model.Fill(sigLenOr(st, 64), seed+12)...)
-	return b, 64
+	return b, sigLenOr(ttype, 64)
 }
 
 func readLS2Path(offline bool, flags byte) func(id []byte, st, et int, seed uint64) (*destination.Destination, error) {
+	return readLS2PathT(offline, flags, 7)
+}
+
+func readLS2PathT(offline bool, flags byte, ttype int) func(id []byte, st, et int, seed uint64) (*destination.Destination, error) {
 	return func(id []byte, st, _ int, seed uint64) (*destination.Destination, error) {
-		b, sl := ls2Header(id, st, seed, offline, flags)
+		b, sl := ls2HeaderT(id, st, seed, offline, flags, ttype)
 		b = append(b, 0, 0) // empty options
 		b = append(b, 1, 0, 4, 0, 32)
 		b = append(b, model.Fill(32, seed)...)
@@ -220,6 +235,10 @@ var destPaths = []destPath{
 	{"ReadLeaseSet2(offline keys)", readLS2Path(true, 0)},
 	{"ReadLeaseSet2(offline keys, unpublished, blinded)", readLS2Path(true, 6)},
 	{"ReadLeaseSet2(unpublished)", readLS2Path(false, 2)},
+	{"ReadLeaseSet2(offline keys, transient Ed25519ph)", readLS2PathT(true, 0, 8)},
+	{"ReadLeaseSet2(offline keys, transient RSA-2048)", readLS2PathT(true, 0, 4)},
+	{"ReadLeaseSet2(offline keys, transient DSA)", readLS2PathT(true, 0, 0)},
+	{"ReadLeaseSet2(offline keys, transient RedDSA)", readLS2PathT(true, 2, 11)},
 	{"ReadMetaLeaseSet", readMetaPath(false, 0)},
 	{"ReadMetaLeaseSet(offline keys)", readMetaPath(true, 0)},
 	{"RouterIdentity.AsDestination", func(id []byte, _, _ int, _ uint64) (*destination.Destination, error) {
